@@ -33,6 +33,8 @@ def generate(rng, tier, count):
             yield D.gen_decimal(rng)
         elif k < 0.27:
             yield D.gen_peek_heavy(rng)
+        elif k < 0.39:
+            yield D.gen_wide(rng)
         else:
             yield D.gen_scenario(rng)
 
